@@ -239,6 +239,27 @@ def check(chk):
     # a delayed control event of the turn that ends never reaches the devices of the next turn: stopping a mode clears its delays
     from sa.helpers import mode_stop_clears_delays
     mode_stop_clears_delays(chk, "PAIR-12")
+    # a shot group caches the state its shots have in common on the device object; the cache is refreshed for the incoming player whenever the
+    # group is loaded - unconditionally, also when that player's shots have nothing in common (otherwise the previous player's value stays)
+    sg = repo.func("mpf/devices/shot_group.py", "ShotGroup.device_loaded_in_mode")
+    chk.analysed(sg)
+    sgc = sg.cfg()
+    ref = [n.id for n, c in sgc.calls_named("_check_for_complete")]
+    ok = bool(ref) and sgc.must_pass(sgc.entry.id, ref) is None
+    chk.ob("PAIR-12", "ShotGroup refreshes its cached common state on every path of device_loaded_in_mode", ok, sg.where(), construct=sg.ident,
+           text="common state refreshed at load")
+    # reading a player variable never creates it: existence (is_player_var, `in player.vars`) is what decides whether a device restores or
+    # initialises, and a first assignment posts the creation event - a read from another player's turn must not pre-empt either
+    for nm_ in ("__getattr__", "__getitem__"):
+        rd = repo.func(PL, "Player." + nm_)
+        chk.analysed(rd)
+        wr = [x for x in walk_local(rd.node) if (isinstance(x, ast.Call) and isinstance(x.func, ast.Attribute) and "vars" in src(x.func.value)
+              and x.func.attr in ("setdefault", "update", "pop", "popitem", "clear", "__setitem__")) or
+              (isinstance(x, ast.Subscript) and isinstance(x.ctx, (ast.Store, ast.Del)) and "vars" in src(x.value)) or
+              (isinstance(x, ast.Call) and call_attr(x) in ("setattr", "__setattr__", "__setitem__"))]
+        chk.ob("OWN-7", "Player.%s only reads: a variable that does not exist is answered with 0 and stays non-existent" % nm_, not wr,
+               rd.where(wr[0]) if wr else rd.where(), detail="`%s` creates the variable on a read" % (short(wr[0], 60) if wr else ""), construct=rd.ident,
+               text="player read creates the variable in " + nm_)
     # progress that lives on the device object (not in the player) goes when the mode unloads: a sequence shot forgets its half-finished
     # sequences on every path of the unload, so the next player's run of the mode starts from nothing (shared with C07)
     ss_ = repo.func("mpf/devices/sequence_shot.py", "SequenceShot.device_removed_from_mode")
@@ -774,6 +795,8 @@ def battery():
     from sa.battery import M
     LBF = "mpf/devices/logic_blocks.py"
     return [
+        M("shot group refreshes its cached state only when there is one", "mpf/devices/shot_group.py", "        super().device_loaded_in_mode(mode, player)\n        self._check_for_complete()", "        super().device_loaded_in_mode(mode, player)\n        if self.get_common_state():\n            self._check_for_complete()", "PAIR-12"),
+        M("reading a player variable creates it", PL, "        if name in self.vars:\n            return self.vars[name]\n\n        return 0\n\n    def __setattr__", "        return self.vars.setdefault(name, 0)\n\n    def __setattr__", "OWN-7"),
         M("timer tick mirror skipped for an unchanged device value", "mpf/devices/timer.py", "    def ticks(self, value):\n        self._ticks = value\n", "    def ticks(self, value):\n        if value == self._ticks:\n            return\n\n        self._ticks = value\n", "PAIR-12"),
         M("sequence shot keeps its half-finished sequences on unload", "mpf/devices/sequence_shot.py", "        self._remove_handlers()\n        self.reset_all_sequences()\n        self.delay.clear()", "        self._remove_handlers()\n        self.delay.clear()", "PAIR-12"),
         M("empty rotation leaves the group marked as rotating (F25 reverted)", "mpf/devices/achievement_group.py", "            self._rotation_in_progress = False\n            return\n", "            return\n", "BRACKET-0"),
